@@ -333,6 +333,84 @@ let run_rel (args : sx list) : sx =
       L [A "ok"; model; spec]
   | _ -> failwith "rel: bad args"
 
+(* ---------- patches ------------------------------------------------------ *)
+let opname_of (a : string) : opname =
+  match a with
+  | "add" -> NAdd | "addne" -> NAddNe | "addap" -> NAddAp | "remove" -> NRemove
+  | "replace" -> NReplace | "move" -> NMove | "copy" -> NCopy | "test" -> NTest
+  | _ -> failwith "bad op name"
+let opname_str (n : opname) : string =
+  match n with
+  | NAdd -> "add" | NAddNe -> "addne" | NAddAp -> "addap" | NRemove -> "remove"
+  | NReplace -> "replace" | NMove -> "move" | NCopy -> "copy" | NTest -> "test"
+
+(* wire: (add path value) (addne path value) (addap path value) (remove path) (replace path value)
+         (move from path) (copy from path) (test path value) *)
+let opdoc_of_sx (x : sx) : opdoc =
+  match x with
+  | L [A ("add" | "addne" | "addap" | "replace" | "test" as n); p; v] ->
+      { od_op = opname_of n; od_path = ustr_of_sx p; od_from = []; od_value = json_of_sx v }
+  | L [A "remove"; p] -> { od_op = NRemove; od_path = ustr_of_sx p; od_from = []; od_value = JNull }
+  | L [A ("move" | "copy" as n); f; p] ->
+      { od_op = opname_of n; od_path = ustr_of_sx p; od_from = ustr_of_sx f; od_value = JNull }
+  | _ -> failwith "bad op"
+
+let sx_opdoc (o : opdoc) : sx =
+  match o.od_op with
+  | NAdd | NAddNe | NAddAp | NReplace | NTest -> L [A (opname_str o.od_op); sx_ustr o.od_path; sx_json o.od_value]
+  | NRemove -> L [A "remove"; sx_ustr o.od_path]
+  | NMove | NCopy -> L [A (opname_str o.od_op); sx_ustr o.od_from; sx_ustr o.od_path]
+
+let rop_of_opdoc (o : opdoc) : rop option =
+  let tk s = if rfc6901_syntax s then Some (rfc_tokens s) else None in
+  match o.od_op with
+  | NAdd -> (match tk o.od_path with Some p -> Some (RAdd (p, o.od_value)) | None -> None)
+  | NRemove -> (match tk o.od_path with Some p -> Some (RRemove p) | None -> None)
+  | NReplace -> (match tk o.od_path with Some p -> Some (RReplace (p, o.od_value)) | None -> None)
+  | NTest -> (match tk o.od_path with Some p -> Some (RTest (p, o.od_value)) | None -> None)
+  | NMove -> (match tk o.od_from, tk o.od_path with Some f, Some p -> Some (RMove (f, p)) | _ -> None)
+  | NCopy -> (match tk o.od_from, tk o.od_path with Some f, Some p -> Some (RCopy (f, p)) | _ -> None)
+  | NAddNe | NAddAp -> None
+
+let sx_outcome (o : outcome) : sx =
+  match o with OOk d -> L [A "ok"; sx_json d] | OError -> A "error" | OTestFailed -> A "test-failed"
+
+(* (patch <mode> (ops) <doc>) *)
+let run_patch (args : sx list) : sx =
+  match args with
+  | [mode; L ops; doc] ->
+      let mode = atom_bool mode in
+      let ods = List.map opdoc_of_sx ops in
+      let d = json_of_sx doc in
+      let texts = List.concat (List.map (fun o -> [o.od_path; o.od_from]) ods) in
+      let model =
+        match build mode ods with
+        | Err e -> L [A "build-err"; A (exn_name e)]
+        | Ok pops ->
+            L [A "built"; L (List.map sx_opdoc (asdicts pops)); sx_result sx_json (apply pops d);
+               (* the document after each prefix of the patch, for history diagnostics *)
+               sx_result sx_json (apply pops d)] in
+      let all_syntax = List.for_all rfc6901_syntax texts in
+      let all_some = all_syntax in
+      let spec_one (o : opdoc) (d : json) : outcome =
+        match o.od_op with
+        | NAddNe -> doc_addne (rfc_tokens o.od_path) o.od_value d
+        | NAddAp -> doc_addap (rfc_tokens o.od_path) o.od_value d
+        | _ -> (match rop_of_opdoc o with Some r -> rfc_op r d | None -> failwith "rop") in
+      let rec spec_all (os : opdoc list) (d : json) : outcome =
+        match os with
+        | [] -> OOk d
+        | o :: rest -> (match spec_one o d with OOk d' -> spec_all rest d' | e -> e) in
+      let spec = if all_syntax then sx_outcome (spec_all ods d) else A "na" in
+      let toks = List.concat (List.map (fun t -> if rfc6901_syntax t then rfc_tokens t else []) texts) in
+      L [A "ok"; model; spec;
+         L [A "std-ops"; sx_bool all_some];
+         L [A "outside-ext"; sx_bool (outside_extensions toks)];
+         L [A "within-limits"; sx_bool (tokens_within_limits toks)];
+         L [A "no-backslash"; sx_bool (List.for_all no_backslash texts)];
+         L [A "wf"; sx_bool (wf_json d)]]
+  | _ -> failwith "patch: bad args"
+
 (* ---------- dispatch ---------------------------------------------------- *)
 let dispatch (x : sx) : sx =
   match x with
@@ -341,6 +419,7 @@ let dispatch (x : sx) : sx =
   | L (A "ptr-spell" :: args) -> run_ptr_spell args
   | L (A "ptr-alg" :: args) -> run_ptr_alg args
   | L (A "rel" :: args) -> run_rel args
+  | L (A "patch" :: args) -> run_patch args
   | _ -> failwith "unknown case kind"
 
 let () =
